@@ -15,7 +15,7 @@ SUB = ["fp_sub", "fp_sub_basic", "fp_sub_integ"]
 MUL = ["fp_mul", "fp_mul_basic", "fp_mul_comba", "fp_mul_integ", "fp_mul_karat"]
 NEG = ["fp_neg", "fp_neg_basic", "fp_neg_integ"]
 DBL = ["fp_dbl", "fp_dbl_basic", "fp_dbl_integ"]
-HLV = ["fp_hlv", "fp_hlv_basic", "fp_hlv_integ"]
+HLV = ["fp_hlv", "fp_hlv_basic", "fp_hlv_integ", "fp_trs"]
 SQR = ["fp_sqr", "fp_sqr_basic", "fp_sqr_comba", "fp_sqr_integ", "fp_sqr_karat"]
 INV = ["fp_inv", "fp_inv_basic", "fp_inv_binar", "fp_inv_monty", "fp_inv_exgcd",
        "fp_inv_divst", "fp_inv_jmpds", "fp_inv_lower"]
